@@ -19,10 +19,11 @@ CXX = os.environ.get("VERIF_CXX", "g++")
 VARIANTS = {
     "exit.plain": ["-O1"],
     "exc.plain": ["-O1", "-DMASA_EXCEPTIONS=1"],
+    "exc.ndebug": ["-O2", "-DNDEBUG", "-DMASA_EXCEPTIONS=1"],  # what a release build of a host project compiles the sources with
     "exit.asan": ["-O1", "-g", "-fsanitize=address,undefined", "-fno-sanitize-recover=all", "-fno-omit-frame-pointer", "-D_GLIBCXX_SANITIZE_VECTOR=1"],
     "exc.asan": ["-O1", "-g", "-fsanitize=address,undefined", "-fno-sanitize-recover=all", "-fno-omit-frame-pointer", "-D_GLIBCXX_SANITIZE_VECTOR=1", "-DMASA_EXCEPTIONS=1"],
 }
-COMMON = ["-std=c++17", "-w", "-fno-builtin-malloc"]
+COMMON = ["-std=c++17", "-w", "-fno-builtin-malloc", "-pthread"]
 
 
 def cc_sources():
@@ -119,7 +120,7 @@ def build(variant):
             sys.stderr.write("build.py: compiling %s failed:\n%s\n" % (src, outp[-3000:]))
         shutil.rmtree(tmp, ignore_errors=True)
         raise SystemExit(2)
-    link = [CXX] + flags + [o for _, o in jobs] + ["-o", os.path.join(tmp, "sim")]
+    link = [CXX, "-pthread"] + flags + [o for _, o in jobs] + ["-o", os.path.join(tmp, "sim")]
     r = subprocess.run(link, stdout=subprocess.PIPE, stderr=subprocess.STDOUT, text=True)
     if r.returncode != 0:
         sys.stderr.write("build.py: link failed:\n%s\n" % r.stdout[-3000:])
